@@ -310,9 +310,72 @@ def check_actions() -> Dict[str, Any]:
     return res
 
 
+def check_idle_loop() -> Dict[str, Any]:
+    """Part F: ``create_task`` asked for by a communicator thread while the loop sits idle in its selector.  An idle loop
+    only carries on when it is woken through its self-pipe, which is what the thread-safe scheduling calls do
+    (``_write_to_self``); the loop here records that wake-up and is only driven on if it came - a coroutine scheduled
+    without it would sit in the ready queue of a sleeping loop for ever.  Coroutines: a value, an exception, one that
+    awaits a future which is then completed / failed by the loop side."""
+    from plumpy import futures as pfutures
+    out: Dict[str, Any] = {'n': 0, 'violations': [], 'nontrivial': 0}
+
+    class IdleLoop(VLoop):
+        woken = False
+
+        def _write_to_self(self) -> None:
+            self.woken = True
+
+    for kind in ('value', 'exc', 'await-value', 'await-exc'):
+        loop = IdleLoop()
+        loop.install()
+        try:
+            gate = loop.create_future()
+            err = ChainError('idle')
+
+            async def coro() -> Any:
+                if kind == 'value':
+                    return 'v'
+                if kind == 'exc':
+                    raise err
+                return await gate
+
+            loop.woken = False
+            # the request comes from another thread (a real one, joined at once: nothing runs concurrently), so that an
+            # implementation which takes a shortcut when it is called on the loop's own thread is not mistaken
+            import threading
+            box: List[Any] = []
+            caller = threading.Thread(target=lambda: box.append(pfutures.create_task(coro, loop=loop)))
+            caller.start()
+            caller.join()
+            fut = box[0]
+            out['n'] += 1
+            out['nontrivial'] += 1
+            for _ in range(3):
+                if not loop.woken:
+                    break  # nobody woke the sleeping loop: nothing runs
+                loop.woken = False
+                loop.drain()
+                if not gate.done():
+                    # the loop side completes what the coroutine waits for (a callback of its own, it is awake then)
+                    loop.woken = True
+                    if kind == 'await-value':
+                        gate.set_result('v')
+                    elif kind == 'await-exc':
+                        gate.set_exception(err)
+            got = status_of(fut)
+            want = ('exc', err) if kind.endswith('exc') else ('value', 'v')
+            if got != want:
+                out['violations'].append({'clause': 'create_task:not-delivered-to-an-idle-loop', 'features': {'coroutine': kind},
+                                          'detail': {'got': repr(got), 'want': repr(want)}, 'case': {'part': 'F', 'kind': kind}})
+        finally:
+            loop.shutdown()
+    return out
+
+
 def run_check(tier: str, seed: int, workers: Any) -> Dict[str, Any]:
     part_a = check_unwrap(3 if tier == 'quick' else 4)
     part_e = check_actions()
+    part_f = check_idle_loop()
     out = runner.run_explorer(
         factory, (), loop_units(tier), {}, seed, workers, split=False,
         rule='B/D: chains of loop futures of depth <= D where each level ends with a value, an exception, a cancellation or the '
@@ -324,7 +387,9 @@ def run_check(tier: str, seed: int, workers: Any) -> Dict[str, Any]:
         assumptions=['a callback delivered by a communicator thread is modelled as a loop callback landing at an arbitrary '
                      'queue position', 'a callback raising directly in _schedule_rpc is wrapped by design and not judged'],
         bounds={'depth': 3 if tier == 'quick' else 4})
-    for extra in (part_a, part_e):
+    out['coverage']['rule'] += ('; F: create_task asked for while the loop sits idle - the coroutine must be scheduled through the '
+                                'call that wakes the loop')
+    for extra in (part_a, part_e, part_f):
         out['coverage']['evaluations'] += extra['n']
         out['coverage']['traces_validated_against_impl'] += extra['n']
         out['coverage']['distinct_nontrivial'] += extra['nontrivial']
@@ -343,5 +408,7 @@ def replay(doc: Dict[str, Any]) -> List[dict]:
         return check_unwrap(len(case['chain']))['violations']
     if case and case.get('part') == 'E':
         return check_actions()['violations']
+    if case and case.get('part') == 'F':
+        return check_idle_loop()['violations']
     unit = to_tuple(doc['unit'])
     return factory().make_run(unit)(Chooser(tuple(doc['choices']))).violations
